@@ -28,14 +28,14 @@ def seed_rows(texts):
     return out
 
 
-def b_holes(chk, oracles_, texts, per_seed, python_only=True, lift=False, wall=None, name="B-holes k=1", vac=("ok", "SyntaxError"), symbolic_gaps=True, extra=None):
+def b_holes(chk, oracles_, texts, per_seed, python_only=True, lift=False, wall=None, name="B-holes k=1", vac=("ok", "SyntaxError"), symbolic_gaps=True, extra=None, insert=False):
     """one symbolic token at a chosen position of a seed token stream; symbolic gaps on every row"""
     sig = levelb.sigma()
     allowed = frozenset(levelb.python_lexicon(sig)) if python_only else None
     sr = seed_rows(texts)
     pairs = []
     for si, (t, ind, rows) in enumerate(sr):
-        pos = [(r, i) for r in range(len(rows)) for i in range(len(rows[r]))]
+        pos = [(r, i) for r in range(len(rows)) for i in range(len(rows[r]) + (1 if insert else 0))]
         if per_seed and len(pos) > per_seed:
             pos = chk.rng.sample(pos, per_seed)
         pairs += [(si, r, i) for r, i in pos]
@@ -45,7 +45,10 @@ def b_holes(chk, oracles_, texts, per_seed, python_only=True, lift=False, wall=N
         si, r, i = pairs[k]
         t, ind, rows = sr[si]
         rows2 = [list(row) for row in rows]
-        rows2[r][i] = levelb.Slot(var=ex.fd("hk", len(sig), allowed), sig=sig)
+        if insert:
+            rows2[r].insert(i, levelb.Slot(var=ex.fd("hk", len(sig), allowed), sig=sig))
+        else:
+            rows2[r][i] = levelb.Slot(var=ex.fd("hk", len(sig), allowed), sig=sig)
         return {"rows": rows2, "indents": ind}
     chk.extra.setdefault("token_hole_positions", 0)
     chk.extra["token_hole_positions"] += len(pairs)
@@ -69,7 +72,7 @@ def b_seeds_k0(chk, oracles_, texts, lift=True, wall=None, vac=("ok",)):
             f"{len(sr)} seed statements as token streams with every inter-token gap a solver variable (>= 0)", wall=wall, vacuity=vac)
 
 
-def a_holes(chk, oracles_, texts, per_text, wall=None, maxlen=160, allowed=None, name="A-holes k=1", vac=("ok", "SyntaxError")):
+def a_holes(chk, oracles_, texts, per_text, wall=None, maxlen=160, allowed=None, name="A-holes k=1", vac=("ok", "SyntaxError"), insert=False):
     pairs = hole_pairs(chk, texts, per_text, maxlen)
     chk.extra.setdefault("char_hole_positions", 0)
     chk.extra["char_hole_positions"] += len(pairs)
@@ -79,7 +82,7 @@ def a_holes(chk, oracles_, texts, per_text, wall=None, maxlen=160, allowed=None,
     def textfn(ex):
         i = harness.choose_index(ex, "pair", len(pairs))
         s, p = pairs[i]
-        return harness.text_with_holes(ex, s, [p], 1, allowed=allowed)
+        return harness.text_with_holes(ex, s, [p], 1, allowed=allowed, insert=insert)
     chk.run(name, harness.A_harness(textfn, path_oracles=oracles_),
             f"{len(pairs)} (seed, position) pairs with one symbolic character", wall=wall, vacuity=vac)
 
@@ -127,3 +130,37 @@ def a_layouts(chk, oracles_, texts, per_text, wall=None):
             f"{len(cases)} (seed, token gap) pairs x {len(variants)} layout variants chosen by a symbolic index "
             "(CRLF, no final newline, tab, form feed, double space, backslash continuation, comment+newline, newline)", wall=wall,
             vacuity=("ok",))
+
+
+def k0_texts(chk, oracles_, texts, name, wall=None, modes=("exec",), vac=("ok",)):
+    """concrete texts pushed through the same harness (chosen by a symbolic index so that they are sharded and counted like paths)"""
+    texts = list(dict.fromkeys(texts))
+    cases = [(t, m) for t in texts for m in modes]
+
+    def textfn(ex):
+        return cases[harness.choose_index(ex, "text", len(cases))]
+    chk.extra[name.replace(" ", "_") + "_texts"] = len(cases)
+    chk.run(name, harness.A_harness(textfn, path_oracles=oracles_), f"{len(cases)} texts", wall=wall, vacuity=vac)
+
+
+INDENTS = ["", "  ", "    ", "      ", "\t", " \t", "        ", "\x0c  "]
+BODIES = ["if x:", "y", "else:", "# c", ""]
+CORE_OPTS = [(i, b) for i in ("", "  ", "    ", "\t") for b in ("if x:", "y")]
+RICH_OPTS = [(i, b) for i in INDENTS for b in BODIES]
+
+
+def indent_skeleton(chk, oracles_, nlines, opts, wall=None, tokens_only=False, label="core"):
+    """every program of nlines lines, each line = an indentation + a body (both chosen through symbolic indices): explores the
+    tokenizer's indentation stack (INDENT/DEDENT/NL decisions, tabs, inconsistent dedents, reuse of closed columns) against CPython"""
+    total = len(opts) ** nlines
+
+    def textfn(ex):
+        lines = []
+        for j in range(nlines):
+            k = harness.choose_index(ex, f"l{j}", len(opts))
+            ind, body = opts[k]
+            lines.append(ind + body + "\n")
+        return "".join(lines)
+    chk.extra[f"indent_skeleton_{label}_{nlines}"] = total
+    chk.run(f"A indentation skeleton ({label}) {nlines} lines", harness.A_harness(textfn, path_oracles=oracles_, do_tokens=tokens_only, do_parse=not tokens_only),
+            f"all {total} programs of {nlines} lines over {len(opts)} (indentation, body) options", wall=wall, vacuity=("ok",))
